@@ -29,5 +29,8 @@ def run():
                    "grammars and for tables reported conflict-free; a change on a table reported ambiguous is a "
                    "diagnostic)",
                    "a constructor failure on a non-left-recursive grammar is a diagnostic here (C03's clause)",
+                   "the grammar is the set of productions plus start_symbol_name: the order in which the symbols are "
+                   "declared in the productions dict is an input dimension (start symbol first / in the middle / last) "
+                   "but not part of the spec; the order of the alternatives of one symbol stays canonical",
                    "bounded: grammar families and string length as in the rule; each parse under a budget of "
                    "%d parse-loop events / %.0f s" % (driver.STEP_BUDGET, driver.WALL_BUDGET)], t0)
